@@ -57,8 +57,8 @@ struct Uses {
 #[derive(Debug, Clone, Default)]
 struct MAgent {
     call: Option<Call>,
-    /// Guards this agent is dropping, in order (drop agent: the guard; after `cbret .. hold`:
-    /// the offered guards). The head's `_unlock` has begun.
+    /// Guards this agent still has to drop (drop agent: the guard; after `cbret .. hold`:
+    /// the offered guards); emptied by the harness-side `GuardGone` events.
     dropq: VecDeque<Gid>,
     /// Guards of the last `offered` observation.
     offered: Vec<Gid>,
@@ -143,38 +143,49 @@ impl Monitors {
         }
     }
 
-    /// One segment of an agent with a non-empty drop queue completed: the head guard is gone.
-    fn drop_progress(&mut self, a: Aid) {
-        let (done, next) = {
-            let Some(ag) = self.agents.get_mut(&a) else { return };
-            let done = ag.dropq.pop_front();
-            (done, ag.dropq.front().copied())
-        };
-        if let Some(g) = done {
-            let mut ended: Option<Key> = None;
-            if let Some(mg) = self.guards.get_mut(&g) {
-                mg.live = false;
-                if mg.by_key {
-                    ended = Some(mg.key);
-                }
+    /// The drop of guard `g` has returned (harness-side event): the guard no longer exists.
+    fn guard_gone(&mut self, g: Gid) {
+        let mut ended: Option<Key> = None;
+        if let Some(mg) = self.guards.get_mut(&g) {
+            if mg.live && mg.by_key {
+                ended = Some(mg.key);
             }
-            if let Some(k) = ended {
-                let idx = self.idx;
-                let u = self.uses.entry(k).or_default();
-                u.open = u.open.saturating_sub(1);
-                u.last_end = Some(idx);
-            }
-            if let Some(n) = next {
-                self.begin_unlock(n);
-            }
+            mg.live = false;
+        }
+        if let Some(k) = ended {
+            // the label being processed is the one during which the drop returned
+            let idx = self.idx + 1;
+            let u = self.uses.entry(k).or_default();
+            u.open = u.open.saturating_sub(1);
+            u.last_end = Some(idx);
         }
     }
 
     /// Evaluate one segment; returns the new hits.
     pub fn observe(&mut self, seg: &Segment) -> Vec<Violation> {
         self.hits.clear();
+        // Which client guards exist is taken from the harness' own record of its drops (`DropBegin` /
+        // `GuardGone` are pushed around every `drop(guard)` the harness executes), never from where the
+        // library happens to park: a guard whose drop has returned is gone before anything this segment
+        // reports is judged.
+        for e in &seg.events {
+            if let Event::GuardGone(g) = e {
+                self.guard_gone(*g);
+            }
+        }
         for (label, obs) in &seg.steps {
             self.step(seg, label, obs);
+        }
+        for e in &seg.events {
+            match e {
+                Event::DropBegin(g) => self.begin_unlock(*g),
+                Event::GuardGone(g) => {
+                    for ag in self.agents.values_mut() {
+                        ag.dropq.retain(|x| x != g);
+                    }
+                }
+                _ => {}
+            }
         }
         if seg.events.iter().any(|e| *e == Event::BeforeCallback(true)) {
             self.hit("C08.callback_under_lock", "eviction callback invoked while the global lock is held".into());
@@ -215,7 +226,6 @@ impl Monitors {
                     Call::Drop(g) => {
                         ag.dropq.push_back(*g);
                         self.agents.insert(*a, ag);
-                        self.begin_unlock(*g);
                     }
                     Call::Expire(_) => {
                         ag.expire_now = self.clock;
@@ -266,9 +276,6 @@ impl Monitors {
                         self.agents.get_mut(a).unwrap().expire_expected = Some(exp);
                     }
                 }
-                if !obs.is_failure() && self.agents.get(a).map(|x| !x.dropq.is_empty()).unwrap_or(false) {
-                    self.drop_progress(*a);
-                }
                 self.agent_obs(seg, *a, label, obs);
             }
             Label::Sub(a, _, _) => {
@@ -311,9 +318,8 @@ impl Monitors {
                 }
                 if *hold {
                     let off = self.agents.get(a).map(|x| x.offered.clone()).unwrap_or_default();
-                    if let Some(first) = off.first().copied() {
+                    if !off.is_empty() {
                         self.agents.get_mut(a).unwrap().dropq = off.into_iter().collect();
-                        self.begin_unlock(first);
                     }
                 }
                 self.agent_obs(seg, *a, label, obs);
